@@ -33,10 +33,18 @@ type Ctx struct {
 	line    int
 	notes   map[string]int
 	samples []string
+	perClass map[string]int
 }
 
+// Violation records an oracle finding; at most 8 per class are kept (so that frequent known findings
+// cannot crowd out a different one), 5000 in total.
 func (c *Ctx) Violation(class, what string) {
-	if len(c.viols) < 200 {
+	if c.perClass == nil {
+		c.perClass = map[string]int{}
+	}
+	c.perClass[class]++
+	c.notes["oracle:"+class]++
+	if c.perClass[class] <= 8 && len(c.viols) < 5000 {
 		c.viols = append(c.viols, Viol{c.line, class, what})
 	}
 }
